@@ -240,11 +240,13 @@ LoadAll(q, files) == IF files = <<>> THEN q ELSE LoadAll(LoadFile(q, Head(files)
 ---------------------------------------------------------------------------
 (* 2./3. The two searches as step machines *)
 VARIABLES
-  task,    \* "uniq" | "fptr" | "db"
+  task,    \* "uniq" | "fptr" | "db" | "stage"
   inp,     \* the input of the call (chosen initially)
-  pc, lo, hi, steps, res
+  pc, lo, hi, steps, res,
+  cache    \* the lazily refreshed name maps: [fresh : the lookup functions whose map is marked fresh
+           \* (_lookups_fresh), at : for each map that was ever built, how many files were loaded then]
 
-vars == <<task, inp, pc, lo, hi, steps, res>>
+vars == <<task, inp, pc, lo, hi, steps, res, cache>>
 
 Running == -2
 
@@ -298,13 +300,19 @@ FptrInit ==
 
 \* ---- inputs of task "db": a scenario [name, files : Seq(bytes)]; see IdbQueryMC
 CONSTANT DbInputs
+\* ---- inputs of task "stage": a HISTORY [name, files1, fn1, nm1, files2, fn2]: files1 are loaded, lookup function
+\*      fn1 answers for name nm1, files2 are requested (and merged by the next query), lookup function fn2 is asked
+\*      for every name
+CONSTANT StageInputs
 
 Init ==
   /\ task \in Tasks
   /\ \/ task = "uniq" /\ UniqInit
      \/ task = "fptr" /\ FptrInit
      \/ task = "db" /\ inp \in DbInputs
+     \/ task = "stage" /\ inp \in StageInputs
   /\ pc = "start" /\ lo = 0 /\ hi = 0 /\ steps = 0 /\ res = Running
+  /\ cache = [fresh |-> {}, at |-> [x \in {} |-> 0]]
 
 Return(v) == pc' = "done" /\ res' = v /\ UNCHANGED <<lo, hi>>
 
@@ -355,7 +363,25 @@ FSearch ==
 \* the by-index functions have no mechanism worth steps: one step evaluates the whole interface
 DEval == task = "db" /\ pc = "start" /\ Return(0)
 
-Step == (USplit \/ UHash \/ USearch \/ FStart \/ FSearch \/ DEval) /\ steps' = steps + 1 /\ UNCHANGED <<task, inp>>
+\* lookup(): `if ((_lookups_fresh & type) == 0) { freshen(); _lookups_fresh |= type; }` with n files loaded
+Freshen(c, fn, n) ==
+  IF fn \in c.fresh THEN c
+  ELSE [fresh |-> c.fresh \cup {fn}, at |-> [x \in DOMAIN c.at \cup {fn} |-> IF x = fn THEN n ELSE c.at[x]]]
+SFirst ==     \* the first lookup, on the files loaded so far
+  /\ task = "stage" /\ pc = "start"
+  /\ cache' = Freshen(cache, inp.fn1, Len(inp.files1))
+  /\ pc' = "looked" /\ UNCHANGED <<lo, hi, res>>
+SMerge ==     \* check_latest -> load_latest -> read -> merge_from: `_lookups_fresh = 0` (every map is stale)
+  /\ task = "stage" /\ pc = "looked"
+  /\ cache' = [cache EXCEPT !.fresh = {}]
+  /\ pc' = "merged" /\ UNCHANGED <<lo, hi, res>>
+SLater ==     \* the later lookups
+  /\ task = "stage" /\ pc = "merged"
+  /\ cache' = Freshen(cache, inp.fn2, Len(inp.files1) + Len(inp.files2))
+  /\ Return(0)
+
+Step == \/ (USplit \/ UHash \/ USearch \/ FStart \/ FSearch \/ DEval) /\ steps' = steps + 1 /\ UNCHANGED <<task, inp, cache>>
+        \/ (SFirst \/ SMerge \/ SLater) /\ steps' = steps + 1 /\ UNCHANGED <<task, inp>>
 Done == pc \in {"done", "aborted"} /\ UNCHANGED vars
 Next == Step \/ Done
 Spec == Init /\ [][Next]_vars /\ WF_vars(Step)
@@ -373,6 +399,7 @@ Log2Ceil(n) == IF n <= 1 THEN 0 ELSE 1 + Log2Ceil((n + 1) \div 2)
 StepBound ==
   CASE task = "uniq" -> steps <= 3 + Log2Ceil(MaxN + 1) + 1
     [] task = "fptr" -> steps <= 2 + Log2Ceil(MaxMods + 1) + 1
+    [] task = "stage" -> steps <= 3
     [] OTHER -> steps <= 1
 
 \* exactness: the answer is the entry itself when the name is present, 0 for every other key, position or length
@@ -414,4 +441,18 @@ DbChecks(q) ==
          /\ Cardinality(Bearers(q, d, nm)) = 1 /\ nm = RecAt(q, d.k, i)[d.f] => a = i
 
 DbTotalAndExact == task = "db" /\ Returned => DbChecks(QOf(inp))
+
+\* ---- histories: what a lookup answers is read from the map as it was built
+QFBy(fn) == QF[CHOOSE x \in 1..Len(QF) : QF[x].fn = fn]
+StageFiles(in0) == in0.files1 \o in0.files2
+CachedLookup(in0, c, fn, nm) == Lookup(LoadAll(EmptyQ, SubSeq(StageFiles(in0), 1, c.at[fn])), QFBy(fn), nm)
+StoredNames(q, d) == {RecAt(q, d.k, i)[d.f] : i \in Idxs(q[d.k])}
+LookupExactOn(q, d, nm, a) == IF Bearers(q, d, nm) = {} THEN a = 0 ELSE a \in Bearers(q, d, nm)
+StagedExact ==
+  task = "stage" =>
+    /\ pc = "looked" => LookupExactOn(LoadAll(EmptyQ, inp.files1), QFBy(inp.fn1), inp.nm1,
+                                      CachedLookup(inp, cache, inp.fn1, inp.nm1))
+    /\ Returned => LET q == LoadAll(EmptyQ, StageFiles(inp)) d == QFBy(inp.fn2) IN
+                   \A nm \in StoredNames(q, d) \cup {<<122, 122>>} :
+                     LookupExactOn(q, d, nm, CachedLookup(inp, cache, inp.fn2, nm))
 =============================================================================
